@@ -263,6 +263,7 @@ class ConnWorld(World):
         device_name: str | None = "dev",
         login: bool = True,
         debug: bool | None = None,
+        noise_psk_text: str | None = None,
     ) -> None:
         super().__init__()
         if debug is None:
@@ -284,6 +285,8 @@ class ConnWorld(World):
         self.client: Any = None
         self.conn: Any = None
         noise_psk = base64.b64encode(self.psk).decode() if noise else None
+        if noise_psk_text is not None:
+            noise_psk = noise_psk_text  # the key exactly as the application typed it (possibly not a key at all)
         if client:
             from aioesphomeapi.client import APIClient
 
